@@ -102,6 +102,9 @@ def product_with_low_digits(rng):
         elif kind < 0.45: low = '5' + '0' * (n - 2) + '1' if n > 1 else '6'        # just above
         elif kind < 0.65: low = '4' + '9' * (n - 1)                                # just below
         elif kind < 0.8: low = '0' * (n - 1) + rng.choice('01')                    # exact / tiny
+        elif kind < 0.9 and n > 3:      # first-rounding traps: 49..95 0..0 and 50..05 0..0 with the inner 5 anywhere
+            a = rng.randint(0, n - 3)
+            low = (rng.choice(['4' + '9' * a + '5', '5' + '0' * a + '5', '4' + '9' * a + '4', '5' + '0' * a + '4'])).ljust(n, '0')[:n]
         else: low = tail_digits(rng, n)
         low = int(low)
         B = (low * pow(A, -1, 10 ** n)) % 10 ** n
@@ -157,7 +160,23 @@ def gen_mul(rng, n):
         yield line('mul', rng.choice(MODES), status_in(rng), x, y)
 
 
+def pair_div_underflow(rng):
+    """exact quotient quot = x / y whose low tl digits (a chosen rounding pattern) fall below the quantum 1E-6176"""
+    qy = rng.randint(1, 12); y = coeff(rng, qy)
+    keep = rng.randint(0, 20); tl = rng.randint(1, max(1, 33 - qy - keep))
+    head = coeff(rng, keep) if keep else 0
+    tail = int(tail_digits(rng, tl))
+    if rng.random() < 0.4 and tl > 2: tail = int('5' + '0' * (tl - 2) + rng.choice('01'))
+    quot = head * 10 ** tl + tail
+    x = quot * y
+    if x == 0 or x >= T34: return finite(rng), finite(rng)
+    d = QMIN - tl + rng.choice([0, 0, 0, 1, -1])          # exponent of the quotient's last digit
+    e2 = rng.randint(max(QMIN, QMIN - d), min(QMAX, QMAX - d)); e1 = d + e2
+    return fin(rng.randint(0, 1), x, max(QMIN, min(QMAX, e1))), fin(rng.randint(0, 1), y, e2)
+
+
 def pair_div(rng):
+    if rng.random() < 0.10: return pair_div_underflow(rng)
     k = rng.random()
     if k < 0.30:      # exact quotients with strippable zeros: x = quot * y
         qd = rng.randint(1, 34); quot = coeff(rng, qd)
@@ -342,7 +361,50 @@ def gen_hash(rng, n):
 
 
 # ------------------------------------------------------------------------------------------------ C02 fma
+def triple_fma_halfway_addend(rng):
+    """product with more than 34 digits (odd or even last digit), opposite- or same-signed addend that ends exactly half a unit
+    (or half a unit +- a little) below the product's last place: the correction arms of the alignment cases 11/12 and 15-17"""
+    q1 = rng.randint(18, 34); q2 = rng.randint(35 - q1 if q1 < 34 else 1, 34)
+    c1 = coeff(rng, q1) | rng.choice([0, 1]); c2 = coeff(rng, q2) | rng.choice([0, 1])
+    if rng.random() < 0.4:      # product just above a power of ten / all nines: decade crossings after the subtraction
+        c2 = 3; c1 = int('3' * 33 + rng.choice('3579'))
+    k = rng.randint(1, 20); m = rng.choice([0, 1, 2, 3, rng.randint(0, 10 ** rng.randint(1, 12))])
+    frac = rng.choice([5 * 10 ** (k - 1)] * 3 + [5 * 10 ** (k - 1) + 1, max(1, 5 * 10 ** (k - 1) - 1)])
+    c3 = m * 10 ** k + frac
+    if not 0 < c3 < T34: c3 = 5 * 10 ** (k - 1)
+    e1 = rng.randint(-200, 200); e2 = rng.randint(-200, 200)
+    s1, s2 = rng.randint(0, 1), rng.randint(0, 1)
+    s3 = (1 - (s1 ^ s2)) if rng.random() < 0.75 else (s1 ^ s2)
+    return fin(s1, c1, e1), fin(s2, c2, e2), fin(s3, c3, e1 + e2 - k)
+
+
+def triple_fma_pow10z(rng):
+    """addend a power of ten (or something that looks like one in its low 64-bit word: k * 2^64 + 10^19, or 10^j +- 1), product of either
+    sign whose leading digit sits 0, 1 or 2 places below the addend's 34-digit window: the 'z = 10^k' special branches of the fma alignment"""
+    j = rng.randint(0, 33); kk = rng.random()
+    if kk < 0.55: c3 = 10 ** j
+    elif kk < 0.70: c3 = max(1, 10 ** j + rng.choice([-1, 1]))
+    elif kk < 0.85: c3 = (rng.randint(1, 4) << 64) + 10 ** 19
+    else: c3 = (rng.randint(1, 5) << 64) + rng.choice([10 ** rng.randint(0, 19), 0])
+    q3 = ndig(c3)
+    q1 = rng.randint(1, 34); q2 = rng.randint(1, 34); c1 = coeff(rng, q1); c2 = coeff(rng, q2)
+    if rng.random() < 0.5:      # leading digits of the product around one half
+        lead = rng.choice([44, 45, 49, 50, 51, 54, 55, 56, 5, 4, 6]); c1 = int(str(lead) + ''.join(rng.choice('0123456789') for _ in range(rng.randint(0, 20)))); c2 = 1
+        if rng.random() < 0.3: c2 = rng.choice([2, 5, 10, 1000])
+    q4 = ndig(c1 * c2)
+    delta = rng.choice([33, 34, 35, 35, 35, 36, 37])
+    e3 = rng.randint(-300, 300) if rng.random() < 0.8 else QMIN + rng.randint(0, 40)
+    e4 = q3 + e3 - q4 - delta          # delta = (q3 + e3) - (q4 + e4)
+    e1 = rng.randint(-3000, 3000); e2 = e4 - e1
+    if not (QMIN <= e2 <= QMAX): e1 = 0; e2 = e4
+    s3 = rng.randint(0, 1); sp = (1 - s3) if rng.random() < 0.75 else s3
+    s1 = rng.randint(0, 1)
+    return fin(s1, c1, e1), fin(s1 ^ sp, c2, max(QMIN, min(QMAX, e2))), fin(s3, c3, e3)
+
+
 def triple_fma(rng):
+    if rng.random() < 0.07: return triple_fma_pow10z(rng)
+    if rng.random() < 0.06: return triple_fma_halfway_addend(rng)
     if rng.random() < 0.08:      # product with patterned low digits in the underflow zone (double-rounding traps), small / zero addend
         x, y = pair_mul_underflow(rng)
         kk = rng.random()
@@ -502,8 +564,41 @@ def gen_int_roundtrip(rng, n):
 
 
 # ------------------------------------------------------------------------------------------------ C07 binary -> decimal
+def _nearest_bits(num, den, eb, fb):
+    """bits of the binary float (eb exponent bits, fb fraction bits) nearest the positive rational num/den (no rounding subtleties needed)"""
+    from fractions import Fraction
+    v = Fraction(num, den); bias = (1 << (eb - 1)) - 1
+    import math
+    e = v.numerator.bit_length() - v.denominator.bit_length()
+    if Fraction(2) ** e > v: e -= 1
+    E = max(e, 1 - bias)
+    m = round(v / Fraction(2) ** (E - fb))
+    if m >= (1 << (fb + 1)): m >>= 1; E += 1
+    if E + bias >= (1 << eb) - 1: return None
+    if m < (1 << fb): return m                          # subnormal
+    return ((E + bias) << fb) | (m - (1 << fb))
+
+
+def frombin_near_pow10(rng):
+    """binary floats within a few ulps of a power of ten (both sides), of 2^k, and at the top of a binade: the decimal-exponent estimate and the
+    'one digit short' renormalisation of the conversion decide there"""
+    if rng.random() < 0.35: eb, fb, nm, lo, hi = 8, 23, 'f32', -45, 38
+    else: eb, fb, nm, lo, hi = 11, 52, 'f64', -323, 308
+    k = rng.randint(lo, hi)
+    b = _nearest_bits(10 ** k, 1, eb, fb) if k >= 0 else _nearest_bits(1, 10 ** (-k), eb, fb)
+    if b is None: b = 1
+    kk = rng.random()
+    if kk < 0.7: b = max(1, b + rng.randint(-30, 30))
+    elif kk < 0.85: b = (b | ((1 << fb) - 1)) - rng.randint(0, 1 << rng.randint(0, fb - 8))     # top of the binade containing 10^k
+    else: b = (b >> fb) << fb | (rng.getrandbits(fb) | (((1 << 12) - 1) << (fb - 12)))           # top 1/4096 of that binade
+    return nm, ((rng.randint(0, 1) << (eb + fb)) | b)
+
+
 def gen_frombin(rng, n):
-    for _ in range(n):
+    for _ in range(n // 5):
+        nm, bits = frombin_near_pow10(rng)
+        yield line(rng.choice(['from_' + nm] * 4 + ['from' + nm + '_t']), rng.choice(MODES), status_in(rng), '%x' % bits)
+    for _ in range(n - n // 5):
         if rng.random() < 0.4:
             eb, fb, nm = 8, 23, 'f32'
         else:
@@ -551,6 +646,12 @@ def gen_quantum_queries(rng, n):
 
 def gen_quantize_samequantum(rng, n):
     """same_quantum(quantize(x, y), y): the quantized operand is built as the value quantize must return (Fin sx c qy)"""
+    for _ in range(n // 3):      # mixed encoding forms: one operand in the large-coefficient form, same or different exponent
+        q = rng.randint(QMIN, QMAX); q2 = q if rng.random() < 0.6 else max(QMIN, min(QMAX, q + rng.choice([-1, 1, 4096, -4096, 8192, rng.randint(-50, 50)])))
+        a = fin(rng.randint(0, 1), coeff(rng), q) if rng.random() < 0.8 else noncanon_small(rng)
+        b = noncanon_large(rng, q2)
+        if rng.random() < 0.5: a, b = b, a
+        yield line('samequantum', 0, 0, a, b)
     for _ in range(n):
         qy = expo(rng); x = fin(rng.randint(0, 1), coeff(rng), qy); y = fin(rng.randint(0, 1), coeff(rng), qy)
         yield line('samequantum', 0, 0, x, y)
@@ -924,7 +1025,8 @@ def gen_operators(rng, n):
 
 def gen_all_ops_status(rng, n):
     """C14: every flag-taking operation with all 64 incoming status values (quick: 6 per case)"""
-    fams = [gen_addsub, gen_mul, gen_div, gen_sqrt, gen_fma, gen_rint, gen_toint, gen_quantize, gen_rem, gen_scaleb, gen_logb, gen_next, gen_minmax, gen_frombin, gen_parse, gen_cmp]
+    fams = [gen_addsub, gen_mul, gen_div, gen_sqrt, gen_fma, gen_rint, gen_toint, gen_quantize, gen_rem, gen_scaleb, gen_logb, gen_next, gen_minmax, gen_frombin, gen_parse, gen_cmp,
+            gen_fdim, gen_consts, gen_quantum_queries, gen_nan]
     per = max(1, n // (len(fams) * 6))
     for f in fams:
         for l in f(rng, per):
@@ -986,3 +1088,33 @@ def gen_c15(rng, n):
                 else:
                     w = int(rest[1:3]); args.append('%x' % c15_int(rng, w)); rest = rest[3:]
             yield line(op, mode, st, *args)
+
+
+# ------------------------------------------------------------------------------------------------ serde, constants, macro, nan(tag)
+def gen_serde(rng, n):
+    """C05, serde clause: serialize -> JSON string -> deserialize; and deserialization of arbitrary strings"""
+    for i in range(n):
+        k = rng.random()
+        if k < 0.6:
+            x = finite(rng) if rng.random() < 0.7 else datum(rng, 0.7)
+            yield line('serde', 0, 0, x)
+        elif k < 0.85:
+            x = finite(rng) if rng.random() < 0.8 else special(rng)
+            yield 'serde_de 0 0 %s' % hexs(fmt_canonical(decode(x), rng.random() < 0.7))
+        else:
+            yield 'serde_de 0 0 %s' % hexs(literal(rng, 60) if rng.random() < 0.7 else rng.choice(GARBAGE))
+
+
+def gen_consts(rng, n):
+    yield 'consts 0 0'
+    yield 'macro 0 0'
+    for _ in range(n):
+        k = rng.random()
+        tag = str(rng.randint(0, 10 ** rng.randint(1, 40))) if k < 0.6 else literal(rng, 50) if k < 0.8 else rng.choice(GARBAGE + ['inf', 'nan', 'snan', '-1', '0'])
+        yield 'nan 0 %x %s' % (status_in(rng), hexs(tag))
+
+
+def gen_fdim(rng, n):
+    for _ in range(n):
+        x, y = cmp_pair(rng) if rng.random() < 0.5 else pair_addsub(rng)
+        yield line('fdim', rng.choice(MODES), status_in(rng), x, y)
